@@ -8,12 +8,15 @@ import (
 	"context"
 	"errors"
 	"fmt"
+	"net/netip"
 	"os"
 	"path/filepath"
+	"slices"
 	"sort"
 	"strings"
 	"testing"
 	"time"
+	"unicode/utf8"
 
 	"github.com/AdguardTeam/AdGuardDNS/internal/agd"
 	"github.com/AdguardTeam/AdGuardDNS/internal/profiledb/internal"
@@ -123,6 +126,15 @@ func vc14rtClasses(w *vc14rtWorld, cl map[string]bool) {
 			cl["human-id"] = true
 		}
 
+		zero4, zero6 := netip.IPv4Unspecified(), netip.IPv6Unspecified()
+		if d.Linked == zero4 || slices.Contains(d.Ded, zero6) {
+			cl["zero-valued-key"] = true
+		}
+
+		if utf8.RuneCountInString(d.Name) == agd.MaxDeviceNameRuneLen {
+			cl["name-at-limit"] = true
+		}
+
 		if !vc14rtIsASCII(d.Name) {
 			cl["non-ascii-name"] = true
 		}
@@ -213,11 +225,12 @@ func TestVerifC14rtRoundTrip(t *testing.T) {
 		"access-nets", "access-asns", "access-domain-rules", "access-empty", "ratelimit-custom", "ratelimit-behaviour-probe", "ratelimit-global",
 		"schedule-non-utc-zone", "schedule-none", "auth-bcrypt", "auth-allow", "auth-disabled", "auth-doh-only", "custom-rules",
 		"linked-ip-v6", "dedicated-ips", "human-id", "version-mismatch", "deleted-profile",
-		"used-before-store", "used-before-store-with-domain-rules", "unused-before-store", "device-used-before-store")
+		"used-before-store", "used-before-store-with-domain-rules", "unused-before-store", "device-used-before-store",
+		"near-miss-twin-profile", "near-miss-twin-device", "second-generation-roundtrip", "zero-valued-key", "name-at-limit")
 	st.Finish(t)
 	vc14rtNeedZones(t)
 
-	dir := t.TempDir()
+	dir := vc14rtScratchDir(t)
 	ctx := context.Background()
 	logger := slogutil.NewDiscardLogger()
 	n := 0
@@ -317,6 +330,45 @@ func TestVerifC14rtRoundTrip(t *testing.T) {
 			}
 
 			cl["known-nil-hash"] = true
+		}
+
+		// Second generation: what was loaded (and has just been probed, i.e.
+		// used) is stored again, as a cache written by a restarted process
+		// would be, and must still describe the same settings.
+		if nilHash == 0 && rapid.IntRange(0, 2).Draw(t, "secondGeneration") == 0 {
+			path2 := path + ".2"
+			defer func() { _ = os.Remove(path2) }()
+
+			if err = filecachepb.New(logger, path2, est).Store(ctx, got); err != nil {
+				fail("Store of the loaded cache: %v", err)
+			}
+
+			got2, lerr := filecachepb.New(logger, path2, est).Load(ctx)
+			if lerr != nil || got2 == nil {
+				fail("Load of the re-stored cache: cache %v, error %v", got2, lerr)
+			}
+
+			// The hash bytes are still compared; the slow bcrypt runs are not
+			// repeated.
+			pr.Bcrypt = false
+			dd, nh := vc14rtCompareLoaded(w, got2.Profiles, got2.Devices, pr)
+			if !got2.SyncTime.Equal(syncTime) || got2.Version != version {
+				dd = append(dd, fmt.Sprintf("sync time %v version %d", got2.SyncTime, got2.Version))
+			}
+
+			if len(dd) > 0 || nh > 0 {
+				fail("stored, loaded, stored and loaded again, the data differs (%d nil password hashes):\n  %s", nh, strings.Join(dd, "\n  "))
+			}
+
+			cl["second-generation-roundtrip"] = true
+		}
+
+		if w.TwinProfile != "" {
+			cl["near-miss-twin-profile"] = true
+		}
+
+		if w.TwinDevice != "" {
+			cl["near-miss-twin-device"] = true
 		}
 
 		if pr.Slow > 0 {
